@@ -170,6 +170,118 @@ Section RestState.
         rewrite sumn_zero; [ring|]. intros k _. unfold xdsigma. rewrite udg0. ring. }
     unfold lnps_implicit_col, matvec. rewrite sumn_zero; [ring|]. intros h _. rewrite dv0. ring.
   Qed.
+
+  (** *** moist classes: uniform specific humidity q0, lnps = cst*one - g/(R T0 (1 + eps q0)) orog *)
+  Section RestMoist.
+    Variable m : @Moist F.
+    Variable q0 : F.
+    Variables q gqx gqy : P -> nat -> F.
+    Variable lapn : P -> F.
+    Hypothesis Hq : forall p k, q p k = q0.
+    Hypothesis Hgqx : forall p k, gqx p k = 0.
+    Hypothesis Hgqy : forall p k, gqy p k = 0.
+    Variable lnpsm : W -> F.
+    Let eps := mRv m / cR c - 1.
+    Hypothesis R_nz : cR c <> 0.
+    Hypothesis mf_nz : 1 + eps * q0 <> 0.
+    Hypothesis H_hydrostatic_m : forall w, lnpsm w = cst * onem w - grav / (cR c * T0 * (1 + eps * q0)) * orog w.
+    (** the analysed constant field has no laplacian; laplacian(lnps) survives to_nodal -> to_modal under the clip *)
+    Hypothesis lap_one : forall w, lap (toM (fun _ => 1)) w = 0.
+    Hypothesis H_lapn : forall w, clip (toM lapn) w = clip (lap lnpsm) w.
+
+    Lemma rt_moist0 p k : rt_moist c m (X p) (q p) k = 0.
+    Proof. unfold rt_moist. rewrite t0. ring. Qed.
+    Lemma combined_um0 p r : combined_u c true (X p) (rt_moist c m (X p) (q p)) r = 0.
+    Proof.
+      unfold combined_u. cbv zeta.
+      rewrite (vt_zero_w _ _ r) by (intros; apply sdf0). rewrite v0, rt_moist0. ring.
+    Qed.
+    Lemma combined_vm0 p r : combined_v c true (X p) (rt_moist c m (X p) (q p)) r = 0.
+    Proof.
+      unfold combined_v. cbv zeta.
+      rewrite (vt_zero_w _ _ r) by (intros; apply sdf0). rewrite u0, rt_moist0. ring.
+    Qed.
+
+    Theorem rest_temperature_steady_moist r w :
+      temp_tendency_explicit_moist W P toM divc clip c m X q r w + temp_tendency_implicit W c dv r w = 0.
+    Proof.
+      unfold temp_tendency_explicit_moist, temp_tendency_implicit.
+      rewrite clip_zero.
+      2:{ intros w'. rewrite toM_zero.
+          2:{ intros p. unfold temp_nodal_total_moist, hsa_nodal, temp_vertical_tendency, temp_adiabatic_moist,
+                t_omega_over_sigma_sp. cbv zeta.
+              rewrite !(vt_zero_w _ _ r) by (intros; first [apply sdf0 | apply sde0]).
+              rewrite !g_part_zero by (intros k; unfold g_explicit, g_full_adiabatic; rewrite ?d0, ?udg0; ring).
+              rewrite udg0, t0. destruct (tref_nonuniform c); ring. }
+          rewrite divc_zero; [ring| |]; intros w2; apply toM_zero; intros p;
+            unfold hsa_mu, hsa_mv; rewrite ?u0, ?v0; ring. }
+      unfold temp_implicit_col, temp_implicit_dense, matvec.
+      rewrite sumn_zero; [ring|]. intros h _. rewrite dv0. ring.
+    Qed.
+
+    Theorem rest_vorticity_steady_moist r w :
+      vort_tendency_explicit W P toM curlc clip c X (fun p => rt_moist c m (X p) (q p))
+                             (fun w' => humidity_curl_modal W P toM c m X gqx gqy r w') r w = 0.
+    Proof.
+      unfold vort_tendency_explicit. apply clip_zero. intros w'.
+      rewrite curlc_zero.
+      2,3: intros w2; apply toM_zero; intros p; first [apply combined_um0 | apply combined_vm0].
+      unfold humidity_curl_modal. rewrite toM_zero; [ring|].
+      intros p. unfold humidity_curl_nodal. cbv zeta. rewrite Hgqx, Hgqy. ring.
+    Qed.
+
+    Theorem rest_divergence_residual_moist r w :
+      div_tendency_explicit W P toM divc lap clip c grav X (fun p => rt_moist c m (X p) (q p)) orog
+                            (fun w' => humidity_div_modal W P toM lap c m X q gqx gqy lapn r w') r w
+      + div_tendency_implicit W lap c Tm lnpsm r w
+      = grav / (1 + eps * q0) * (lap orog w - clip (lap orog) w).
+    Proof.
+      unfold div_tendency_explicit, div_tendency_implicit.
+      set (k0 := q0 * T0 * (mRv m - cR c)).
+      set (gam := grav / (cR c * T0 * (1 + eps * q0))).
+      assert (Hll : forall w', lap lnpsm w' = (- gam) * lap orog w').
+      { intros w'.
+        rewrite (lin_comb lap lap_lin lnpsm (fun a => cst * onem a) orog (- gam)) by (intros; rewrite H_hydrostatic_m; unfold gam; ring).
+        rewrite (lin_scal lap lap_lin (fun a => cst * onem a) onem cst) by reflexivity. rewrite lap_const. ring. }
+      (* explicit part *)
+      rewrite (lin_comb clip clip_lin _ (fun w' => (- grav) * lap orog w') (toM lapn) (- k0)).
+      2:{ intros w'. rewrite divc_zero.
+          2,3: intros w2; apply toM_zero; intros p; first [apply combined_um0 | apply combined_vm0].
+          rewrite (lin_ext lap lap_lin (toM (fun p => kinetic (X p) r)) (fun _ => 0))
+            by (intros w2; apply toM_zero; intros p; apply kinetic0).
+          rewrite (lin_zero lap lap_lin).
+          unfold humidity_div_modal.
+          set (Gc := geo_diff false c (fun k => q0 * (0 + T0) * (mRv m / cR c - 1)) r).
+          rewrite (lin_scal lap lap_lin (toM (fun p => humidity_geo_nodal c false m (X p) (q p) r)) (toM (fun _ => 1)) Gc).
+          2:{ intros a. apply (lin_scal toM toM_lin). intros p.
+              unfold humidity_geo_nodal, humidity_temperature_diff, Gc, geo_diff, geo_diff_dense.
+              rewrite <- sumn_scal_r. apply sumn_ext. intros k _. rewrite Hq, t0, Tref_iso. ring. }
+          rewrite lap_one.
+          rewrite (lin_scal toM toM_lin (fun p => humidity_div_nodal c m (X p) (q p) (gqx p) (gqy p) (lapn p) r) lapn k0).
+          2:{ intros p. unfold humidity_div_nodal, k0. cbv zeta. rewrite Hgqx, Hgqy, Hq, Tref_iso. ring. }
+          ring. }
+      rewrite (lin_scal clip clip_lin (fun w' => - grav * lap orog w') (lap orog) (- grav)) by reflexivity.
+      rewrite H_lapn.
+      rewrite (lin_scal clip clip_lin (lap lnpsm) (lap orog) (- gam)) by exact Hll.
+      (* implicit part *)
+      rewrite (lin_scal lap lap_lin
+                 (fun w' => div_implicit_potential c false (fun k => Tm k w') (lnpsm w') r) lnpsm (cR c * T0)).
+      2:{ intros w'. unfold div_implicit_potential, geo_diff, geo_diff_dense.
+          rewrite sumn_zero by (intros; rewrite Tm0; ring). rewrite Tref_iso. ring. }
+      rewrite Hll. unfold gam, k0, eps. field.
+      split; [exact R_nz|]. split.
+      - intro E. apply mf_nz. unfold eps.
+        transitivity ((cR c + (mRv m - cR c) * q0) / cR c); [field; exact R_nz | rewrite E; field; exact R_nz].
+      - intro E. apply RT0_nz. rewrite E. ring.
+    Qed.
+
+    Theorem rest_divergence_steady_moist r w :
+      clip (lap orog) w = lap orog w ->
+      div_tendency_explicit W P toM divc lap clip c grav X (fun p => rt_moist c m (X p) (q p)) orog
+                            (fun w' => humidity_div_modal W P toM lap c m X q gqx gqy lapn r w') r w
+      + div_tendency_implicit W lap c Tm lnpsm r w = 0.
+    Proof. intros H. rewrite rest_divergence_residual_moist, H. ring. Qed.
+  End RestMoist.
 End RestState.
 
 (** * 2. The nodal column algebra of the implementation (explicit + implicit)
@@ -320,6 +432,21 @@ Section ColumnRefinement.
     rewrite !(vertical_tendency_spec_ext (sigma_dot_full c x) (spec_sigma_dot c (gcol x)) _ k Hk)
       by (intros; apply refines_sigma_dot; lia).
     split; field; exact HR.
+  Qed.
+
+  (** the nodal vector handed to div/curl for ANY pressure-gradient temperature [rt] (R T, R Tv, ...) *)
+  Lemma combined_is_spec (x : NCol) (rt : nat -> F) k :
+    (k < cK c)%nat ->
+    combined_u c true x rt k
+    = n_sec2 x * (- n_v x k * (n_vort x k + n_f x) - spec_vadv c (spec_sigma_dot c (gcol x)) (n_u x) k + rt k * n_gx x) /\
+    combined_v c true x rt k
+    = n_sec2 x * (n_u x k * (n_vort x k + n_f x) - spec_vadv c (spec_sigma_dot c (gcol x)) (n_v x) k + rt k * n_gy x).
+  Proof.
+    intros Hk. unfold combined_u, combined_v. cbv zeta.
+    rewrite !vertical_tendency_is_spec by exact Hk.
+    rewrite !(vertical_tendency_spec_ext (sigma_dot_full c x) (spec_sigma_dot c (gcol x)) _ k Hk)
+      by (intros; apply refines_sigma_dot; lia).
+    split; ring.
   Qed.
 
   (** kinetic energy and hydrostatic geopotential are the specification's by definition *)
@@ -1289,3 +1416,180 @@ Ltac ps_hyps :=
         | exact psH_dlon_add | exact psH_dmu_add | exact psH_dlon_leib | exact psH_dmu_leib | exact psH_commute
         | exact psH_dlon_mu | exact psH_dmu_mu | exact psH_dlon_a | exact psH_dmu_a | apply ps_cst_c
         | (intros; apply ps_cst_c) | (intros; apply zon_cst; apply ps_cst_c) ].
+
+(** * 5. Modal layer: explicit + implicit vorticity / divergence tendencies of the model are the
+    (clipped) modal operators applied to the analysed specification quantities
+      - div / - curl  of  sec^2 cos(lat) [ (zeta+f) k x v + sigma_dot dv/dsigma + R Tv grad ln ps ]
+      - lap ( KE + g orog [+ humidity part of the geopotential] )  - lap ( G . T )
+    for ANY reference profile.  Exactness hypotheses used (table obligations of C04/C02):
+    [H_div_grad], [H_curl_grad] (div/curl of the analysed sec^2 grad(lnps) are lap(lnps) / 0 below the
+    clipped wavenumber), [lap_const] (the constant mode has no laplacian), for the moist classes the
+    Leibniz obligations [H_leibniz], [H_leibniz_curl] of q grad(lnps); plus b_0 = 0.  What is NOT
+    assumed and not proved: that to_modal of a nodal product is the exact projection of the product
+    of the continuous fields (alias-freeness) - decided by Oracle A. *)
+Section ModalRefinement.
+  Context {F : Type} {o : Ops F} {Fc : FieldC o}.
+  Add Field FFmref : (field_c : FieldTh o).
+  Variables W P : Type.
+  Variable toM : (P -> F) -> W -> F.
+  Variable divc curlc : (W -> F) -> (W -> F) -> W -> F.
+  Variable lap clip : (W -> F) -> W -> F.
+  Hypothesis toM_lin : linear toM.
+  Hypothesis divc_lin : linear2 divc.
+  Hypothesis curlc_lin : linear2 curlc.
+  Hypothesis lap_lin : linear lap.
+  Hypothesis clip_lin : linear clip.
+  Variable c : @PEcfg F.
+  Hypothesis b_top : cb c 0%nat = 0.
+  Variable grav : F.
+  Variable X : P -> @NCol F.          (* nodal columns; their temperature entry is ignored *)
+  Variable T : nat -> P -> F.         (* absolute nodal temperature *)
+  Variable Tm : nat -> W -> F.        (* its modal coefficients *)
+  Variable lnps onem orog : W -> F.
+  Hypothesis H_div_grad : forall w,
+      clip (divc (toM (fun p => n_gx (X p) * n_sec2 (X p))) (toM (fun p => n_gy (X p) * n_sec2 (X p)))) w = lap lnps w.
+  Hypothesis H_curl_grad : forall w,
+      clip (curlc (toM (fun p => n_gx (X p) * n_sec2 (X p))) (toM (fun p => n_gy (X p) * n_sec2 (X p)))) w = 0.
+  Hypothesis lap_const : forall w, lap onem w = 0.
+
+  (** sec^2 cos(lat) * the specification's momentum vector at node p, level r, for the
+      pressure-gradient temperature [rt] (R T dry, R Tv moist) *)
+  Definition spec_P (rt : P -> nat -> F) (p : P) (r : nat) : F :=
+    n_sec2 (X p) * (- n_v (X p) r * (n_vort (X p) r + n_f (X p))
+                    - spec_vadv c (spec_sigma_dot c (gcol (X p))) (n_u (X p)) r + rt p r * n_gx (X p)).
+  Definition spec_Q (rt : P -> nat -> F) (p : P) (r : nat) : F :=
+    n_sec2 (X p) * (n_u (X p) r * (n_vort (X p) r + n_f (X p))
+                    - spec_vadv c (spec_sigma_dot c (gcol (X p))) (n_v (X p)) r + rt p r * n_gy (X p)).
+  Definition rt_abs (p : P) (k : nat) : F := cR c * T k p.
+
+  Lemma toM_combined_u rt r a : (r < cK c)%nat ->
+    toM (fun p => combined_u c true (X p) (rt p) r) a = toM (fun p => spec_P rt p r) a.
+  Proof. intros Hr. apply (lin_ext toM toM_lin). intros p. apply (combined_is_spec c b_top (X p) (rt p) r Hr). Qed.
+  Lemma toM_combined_v rt r a : (r < cK c)%nat ->
+    toM (fun p => combined_v c true (X p) (rt p) r) a = toM (fun p => spec_Q rt p r) a.
+  Proof. intros Hr. apply (lin_ext toM toM_lin). intros p. apply (combined_is_spec c b_top (X p) (rt p) r Hr). Qed.
+
+  (** DRY classes, divergence *)
+  Theorem refines_divergence_modal (Tref : nat -> F) r w :
+    (r < cK c)%nat ->
+    div_tendency_explicit W P toM divc lap clip (with_tref c Tref) grav (Xs P X T Tref)
+                          (fun p => rt_dry (with_tref c Tref) (Xs P X T Tref p)) orog (fun _ => 0) r w
+    + div_tendency_implicit W lap (with_tref c Tref) (Tms W Tm onem Tref) lnps r w
+    = clip (fun w' => - divc (toM (fun p => spec_P rt_abs p r)) (toM (fun p => spec_Q rt_abs p r)) w'
+                      - lap (fun w2 => toM (fun p => kinetic (X p) r) w2 + grav * orog w2) w') w
+      - lap (fun w' => geo_diff false c (fun k => Tm k w') r) w.
+  Proof.
+    intros Hr.
+    rewrite (divergence_modal_closed W P toM divc lap clip toM_lin divc_lin lap_lin clip_lin c grav X T Tm lnps onem orog
+               H_div_grad lap_const Tref r w).
+    f_equal. apply (lin_ext clip clip_lin). intros w'. unfold div_base, cu_abs, cv_abs.
+    destruct divc_lin as [Hde _].
+    match goal with |- context [divc ?xa ?xb w'] =>
+      rewrite (Hde xa (toM (fun p => spec_P rt_abs p r)) xb (toM (fun p => spec_Q rt_abs p r))
+                 (fun z => toM_combined_u rt_abs r z Hr) (fun z => toM_combined_v rt_abs r z Hr) w') end.
+    rewrite (lin_comb lap lap_lin (fun w2 => toM (fun p => kinetic (X p) r) w2 + grav * orog w2)
+               (toM (fun p => kinetic (X p) r)) orog grav (fun _ => eq_refl)).
+    ring.
+  Qed.
+
+  (** ... in the documented form  - div(...) - lap(KE + Phi),  Phi = g orog + G . T  the hydrostatic
+      geopotential, when the temperature has no content in the clipped top wavenumber *)
+  Theorem refines_divergence_modal_energy (Tref : nat -> F) r w :
+    (r < cK c)%nat ->
+    clip (lap (fun w' => geo_diff false c (fun k => Tm k w') r)) w = lap (fun w' => geo_diff false c (fun k => Tm k w') r) w ->
+    div_tendency_explicit W P toM divc lap clip (with_tref c Tref) grav (Xs P X T Tref)
+                          (fun p => rt_dry (with_tref c Tref) (Xs P X T Tref p)) orog (fun _ => 0) r w
+    + div_tendency_implicit W lap (with_tref c Tref) (Tms W Tm onem Tref) lnps r w
+    = clip (fun w' => - divc (toM (fun p => spec_P rt_abs p r)) (toM (fun p => spec_Q rt_abs p r)) w'
+                      - lap (fun w2 => toM (fun p => kinetic (X p) r) w2
+                                       + spec_phi c (grav * orog w2) (fun k => Tm k w2) r) w') w.
+  Proof.
+    intros Hr Hc. rewrite (refines_divergence_modal Tref r w Hr), <- Hc.
+    set (Gd := fun w' => geo_diff false c (fun k => Tm k w') r).
+    set (E1 := fun w2 => toM (fun p => kinetic (X p) r) w2 + grav * orog w2).
+    set (Dv := fun w' => divc (toM (fun p => spec_P rt_abs p r)) (toM (fun p => spec_Q rt_abs p r)) w').
+    symmetry.
+    rewrite (lin_comb clip clip_lin _ (fun w' => - Dv w' - lap E1 w') (lap Gd) (- (1))).
+    - ring.
+    - intros w'. unfold Dv.
+      rewrite (lin_comb lap lap_lin (fun w2 => toM (fun p => kinetic (X p) r) w2 + spec_phi c (grav * orog w2) (fun k => Tm k w2) r)
+                 E1 Gd 1) by (intros a; unfold E1, Gd, spec_phi, geo_diff; ring).
+      ring.
+  Qed.
+
+  (** DRY classes, vorticity *)
+  Theorem refines_vorticity_modal (Tref : nat -> F) r w :
+    (r < cK c)%nat ->
+    vort_tendency_explicit W P toM curlc clip (with_tref c Tref) (Xs P X T Tref)
+                           (fun p => rt_dry (with_tref c Tref) (Xs P X T Tref p)) (fun _ => 0) r w
+    = clip (fun w' => - curlc (toM (fun p => spec_P rt_abs p r)) (toM (fun p => spec_Q rt_abs p r)) w') w.
+  Proof.
+    intros Hr.
+    rewrite (vorticity_modal_closed W P toM curlc clip toM_lin curlc_lin clip_lin c X T H_curl_grad Tref r w).
+    apply (lin_ext clip clip_lin). intros w'. unfold vort_base, cu_abs, cv_abs.
+    destruct curlc_lin as [Hce _].
+    match goal with |- context [curlc ?xa ?xb w'] =>
+      rewrite (Hce xa (toM (fun p => spec_P rt_abs p r)) xb (toM (fun p => spec_Q rt_abs p r))
+                 (fun z => toM_combined_u rt_abs r z Hr) (fun z => toM_combined_v rt_abs r z Hr) w') end.
+    ring.
+  Qed.
+
+  (** MOIST classes: R Tv = R T (1 + (Rv/R - 1) q) in the pressure-gradient term, the humidity part
+      G . ((Rv/R - 1) q T) of the geopotential evaluated at the nodes *)
+  Section Moist.
+    Variable m : @Moist F.
+    Hypothesis R_nz : cR c <> 0.
+    Variable q gqx gqy : P -> nat -> F.
+    Variable lapn : P -> F.
+    Hypothesis H_leibniz : forall r w,
+        clip (fun w' => divc (toM (qgx P X q r)) (toM (qgy P X q r)) w' - toM (leib_div P X q gqx gqy lapn r) w') w = 0.
+    Hypothesis H_leibniz_curl : forall r w,
+        clip (fun w' => curlc (toM (qgx P X q r)) (toM (qgy P X q r)) w' + toM (leib_curl P X gqx gqy r) w') w = 0.
+    Definition rtv_abs (p : P) (k : nat) : F := cR c * T k p * (1 + (mRv m / cR c - 1) * q p k).
+
+    Theorem refines_divergence_modal_moist (Tref : nat -> F) r w :
+      (r < cK c)%nat ->
+      div_tendency_explicit W P toM divc lap clip (with_tref c Tref) grav (Xs P X T Tref)
+          (fun p => rt_moist (with_tref c Tref) m (Xs P X T Tref p) (q p)) orog
+          (fun w' => humidity_div_modal W P toM lap (with_tref c Tref) m (Xs P X T Tref) q gqx gqy lapn r w') r w
+      + div_tendency_implicit W lap (with_tref c Tref) (Tms W Tm onem Tref) lnps r w
+      = clip (fun w' => - divc (toM (fun p => spec_P rtv_abs p r)) (toM (fun p => spec_Q rtv_abs p r)) w'
+                        - lap (fun w2 => toM (fun p => kinetic (X p) r) w2 + grav * orog w2
+                                         + toM (fun p => geo_diff false c (fun k => q p k * T k p * (mRv m / cR c - 1)) r) w2) w') w
+        - lap (fun w' => geo_diff false c (fun k => Tm k w') r) w.
+    Proof.
+      intros Hr.
+      rewrite (divergence_modal_closed_moist W P toM divc lap clip toM_lin divc_lin lap_lin clip_lin c R_nz grav m X T Tm
+                 lnps onem orog q gqx gqy lapn H_div_grad lap_const H_leibniz Tref r w).
+      f_equal. apply (lin_ext clip clip_lin). intros w'. unfold div_base_m, cu_abs_m, cv_abs_m, geo_abs_m.
+      destruct divc_lin as [Hde _].
+      match goal with |- context [divc ?xa ?xb w'] =>
+        rewrite (Hde xa (toM (fun p => spec_P rtv_abs p r)) xb (toM (fun p => spec_Q rtv_abs p r))
+                   (fun z => toM_combined_u rtv_abs r z Hr) (fun z => toM_combined_v rtv_abs r z Hr) w') end.
+      set (KE := toM (fun p => kinetic (X p) r)).
+      set (GQ := toM (fun p => geo_diff false c (fun k => q p k * T k p * (mRv m / cR c - 1)) r)).
+      rewrite (lin_comb lap lap_lin (fun w2 => KE w2 + grav * orog w2 + GQ w2) (fun w2 => KE w2 + grav * orog w2) GQ 1)
+        by (intros; ring).
+      rewrite (lin_comb lap lap_lin (fun w2 => KE w2 + grav * orog w2) KE orog grav (fun _ => eq_refl)).
+      ring.
+    Qed.
+
+    Theorem refines_vorticity_modal_moist (Tref : nat -> F) r w :
+      (r < cK c)%nat ->
+      vort_tendency_explicit W P toM curlc clip (with_tref c Tref) (Xs P X T Tref)
+          (fun p => rt_moist (with_tref c Tref) m (Xs P X T Tref p) (q p))
+          (fun w' => humidity_curl_modal W P toM (with_tref c Tref) m (Xs P X T Tref) gqx gqy r w') r w
+      = clip (fun w' => - curlc (toM (fun p => spec_P rtv_abs p r)) (toM (fun p => spec_Q rtv_abs p r)) w') w.
+    Proof.
+      intros Hr.
+      rewrite (vorticity_modal_closed_moist W P toM curlc clip toM_lin curlc_lin clip_lin c R_nz m X T q gqx gqy
+                 H_curl_grad H_leibniz_curl Tref r w).
+      apply (lin_ext clip clip_lin). intros w'. unfold vort_base_m, cu_abs_m, cv_abs_m.
+      destruct curlc_lin as [Hce _].
+      match goal with |- context [curlc ?xa ?xb w'] =>
+        rewrite (Hce xa (toM (fun p => spec_P rtv_abs p r)) xb (toM (fun p => spec_Q rtv_abs p r))
+                   (fun z => toM_combined_u rtv_abs r z Hr) (fun z => toM_combined_v rtv_abs r z Hr) w') end.
+      reflexivity.
+    Qed.
+  End Moist.
+End ModalRefinement.
